@@ -782,6 +782,9 @@ pub(crate) async fn invoke_command_in_subshell_and_get_output(
 
     let cmd_join_handle = tokio::spawn(run_substitution_command(subshell, params, s));
 
+    #[cfg(feature = "verif-hooks")]
+    crate::verif_pause::pause("cmdsub").await;
+
     let output_str = async_reader.read_to_string().await?;
 
     // Now observe the command's completion.
